@@ -46,8 +46,8 @@ impl Property for C07 {
     }
     fn plan(&self, suite: SuiteId, tier: Tier) -> Vec<(u32, u32)> {
         let per = match (tier, suite.slow()) {
-            (Tier::Quick, false) => 20,
-            (Tier::Quick, true) => 4,
+            (Tier::Quick, false) => 60,
+            (Tier::Quick, true) => 8,
             (Tier::Thorough, false) => 300,
             (Tier::Thorough, true) => 50,
         };
